@@ -22,7 +22,7 @@ for pid in sorted(by):
     out.append(f"| {pid} | {k} / {n} | {', '.join(sorted(names))} |")
 out.append("")
 out.append("### 8.2 Seeded changes written by independent sub-agents (`seeded/<name>/`)\n")
-out.append("Each sub-agent saw only the property text and a scratch worktree (nothing from `/verif`) and delivered a patch, a demonstration that passes without and fails with the patch, and the repository suite still at 69 passed. Every one was confirmed with `tools/seedcheck.py` (clean demo, patch applies, suite, patched demo, then the checks through `VERIF_REPO_SRC`). Round 2 asked for a different mechanism and clause than round 1; rounds 3 and 4 (names ending in `c` and `d`) steered each agent to clauses and trigger genres not used before, round 5 (`e`) was unsteered again, round 6 (`f`) asked for the two genres that had produced the most misses - stale or under-keyed caches and absolute tolerances / thresholds, round 7 (`g`) for changes that bite only at the ends of the admissible domain, round 8 (`h`) for two cooperating edits that are each harmless alone or violations that need a call sequence / argument combination, round 9 (`i`) for not-quite-equivalent rewrites, shared or leftover state and the secondary / rejection clauses (section 6.3). Patches are kept applicable to the current `/repo` HEAD: after each later `fix:` commit the ones touching the repaired lines were rebased.\n")
+out.append("Each sub-agent saw only the property text and a scratch worktree (nothing from `/verif`) and delivered a patch, a demonstration that passes without and fails with the patch, and the repository suite still at 69 passed. Every one was confirmed with `tools/seedcheck.py` (clean demo, patch applies, suite, patched demo, then the checks through `VERIF_REPO_SRC`). Round 2 asked for a different mechanism and clause than round 1; rounds 3 and 4 (names ending in `c` and `d`) steered each agent to clauses and trigger genres not used before, round 5 (`e`) was unsteered again, round 6 (`f`) asked for the two genres that had produced the most misses - stale or under-keyed caches and absolute tolerances / thresholds, round 7 (`g`) for changes that bite only at the ends of the admissible domain, round 8 (`h`) for two cooperating edits that are each harmless alone or violations that need a call sequence / argument combination, round 9 (`i`) for not-quite-equivalent rewrites, shared or leftover state and the secondary / rejection clauses, round 10 (`j`) for changes that a thorough property-based harness would still miss (section 6.3). Patches are kept applicable to the current `/repo` HEAD: after each later `fix:` commit the ones touching the repaired lines were rebased.\n")
 out.append("| seeded change | what it needs to manifest | caught by (quick tier) | caught as first written? |")
 out.append("|---|---|---|---|")
 for f in sorted(glob.glob(os.path.join(HERE, "seeded", "*", "meta.json"))):
